@@ -718,13 +718,21 @@ def aligned_variants(acc, thorough=False, light=False):
     Containers of 2/4/8 bytes always get a view that puts them at an address that is a multiple of their size under
     alignment 8 (this is what reaches the MemoryAccessor<CharT, N, 0, 8N> specialisations), plus rotating other pairs."""
     vs = []
+    # A < 0: the same view over (signed) `char` storage -- what a view over a std::string or a char array is -- with
+    # static alignment |A|; bytes >= 0x80 are negative there, so a missing conversion to unsigned shows in any
+    # multi-byte container
     if light and not thorough:      # write drivers of the quick tier: one variant per 2/4/8-byte container, few others
+        if acc.id % 3 == 0:
+            vs.append((-1, 0))
         if acc.c in (2, 4, 8):
             vs.append((8, (-acc.boff) % 8) if acc.id % 2 else (acc.c, (-acc.boff) % acc.c))
         elif acc.id % 6 == 1:
             A = (2, 4, 8)[(acc.id // 6) % 3]
             vs.append((A, (acc.id * 5 + 1) % A))
         return vs
+    vs.append((-1, 0))
+    if thorough and acc.c in (2, 4, 8):
+        vs.append((-8, (-acc.boff) % 8))
     if acc.c in (2, 4, 8):
         vs.append((8, (-acc.boff) % 8))
         if acc.id % 2 == 0 or thorough:
@@ -771,7 +779,10 @@ def aligned_driver(m, cases, thorough=False, light=False):
             src.append("static const %s wv%d_%d[] = {%s};" % (tn, a, ti, arr))
             arrs.append((ti, len(vals)))
         for vi, (A, k) in enumerate(cs["aligned"], 1):
-            if k == 0:
+            if A < 0:
+                mk = ("%s::GenericTopView< ::emboss::support::ContiguousBuffer<char, %d, %d>>(reinterpret_cast<char *>(p), n)"
+                      % (m.name, -A, k))
+            elif k == 0:
                 mk = "%s::MakeAlignedTopView<unsigned char, %d>(p, n)" % (m.name, A)
             else:
                 mk = "%s::GenericTopView< ::emboss::support::ContiguousBuffer<unsigned char, %d, %d>>(p, n)" % (m.name, A, k)
